@@ -68,7 +68,7 @@ fn build_cli() -> Result<(PathBuf, f64), String> {
     let t0 = Instant::now();
     let out = Command::new("cargo")
         .args(["build", "-p", "rsass-cli", "--offline"])
-        .current_dir("/repo")
+        .current_dir(vp::corpus::repo_dir())
         .env("CARGO_TARGET_DIR", &target)
         .env_remove("RUSTFLAGS")
         .env_remove("CARGO_ENCODED_RUSTFLAGS")
